@@ -57,4 +57,9 @@ theorem derivableSpec_dispatch (isUser isTuple : Bool) :
     derivableSpecBranch isUser isTuple = (if isUser then 0 else if isTuple then 1 else 2) := by
   cases isUser <;> cases isTuple <;> rfl
 
+
+/-- `TrainingOptions.random_generator()` builds a generator from the seed on every call (code 1 = `random_generator(self.rng)`): a seed is a
+    value, an options object carrying one means "start from that seed" each time it is asked -/
+theorem options_generator_fresh : optionsGenerator = some 1 := rfl
+
 end LK.Gen.GuardsC11
